@@ -292,6 +292,111 @@ theorem rx_pool_always_available (n size : Nat) (hpos : 0 < n) (hn : n < sizeMax
     | nothing => simp only [recycle, if_pos hmem2]; simp
     | exn => simp only [recycle, if_pos hmem2]; simp
 
+/-- every buffer the receive pool knows already has room for a full receive -/
+def Warm (size : Nat) (p : Pool) : Prop := ∀ b, b < p.next → size ≤ p.cap b
+
+theorem warm_fill {size : Nat} {p : Pool} (b m : Nat) (h : Warm size p) : Warm size (fill p b m) := by
+  intro x hx
+  by_cases hin : b ∈ p.busy
+  · have hx' : x < p.next := by simpa [fill, hin] using hx
+    have := h x hx'
+    by_cases hxb : x = b
+    · subst hxb; simp [fill, hin, upd]; omega
+    · simpa [fill, hin, upd, hxb] using this
+  · have hx' : x < p.next := by simpa [fill, hin] using hx
+    simpa [fill, hin] using h x hx'
+
+theorem warm_recycle {size : Nat} {p q : Pool} {b : Nat} (h : Warm size p) (hr : recycle p b = some q) :
+    Warm size q := by
+  unfold recycle at hr
+  split at hr
+  · cases hr; exact h
+  · cases hr
+
+/-- `GetBuffer()` = `Get` + `resize(rxBufSize)`: the pool is warm again afterwards, whether the
+buffer was idle or newly created -/
+theorem warm_get_fill {size : Nat} {p p1 : Pool} {b : Nat} (h : Warm size p) (hg : get p = .ok b p1) :
+    Warm size (fill p1 b size) := by
+  unfold get at hg
+  split at hg
+  · split at hg
+    · cases hg
+      intro x hx
+      have hin : p.next ∈ p.busy ++ [p.next] := by simp
+      by_cases hxb : x = p.next
+      · subst hxb; simp [fill, upd]
+      · have hx' : x < p.next := by
+          have : x < p.next + 1 := by simpa [fill] using hx
+          omega
+        simpa [fill, upd, hxb] using h x hx'
+    · cases hg
+  · rename_i b0 rest hidle
+    cases hg
+    exact warm_fill _ _ h
+
+/-- "malloc counts around Get on a warm pool": on a socket with `rxBufCount = n` (any `n`, also the
+unlimited `0`) and `rxBufSize = size`, after *any* history of receives (every outcome) and drops,
+every buffer the pool knows has capacity for a full receive - so the `resize(rxBufSize)` of a receive
+that reuses a buffer never reallocates, and only a receive that creates a new buffer allocates. -/
+theorem rx_pool_stays_warm (n size : Nat) (ops : List RxOp) :
+    Warm size (rxRun size { pool := create n size, held := [] } ops).pool := by
+  have hinit : Warm size (create n size) := by
+    intro b hb
+    have : b < n := hb
+    simp [create, this]
+  suffices H : ∀ (s : RxState), Warm size s.pool → Warm size (rxRun size s ops).pool from H _ hinit
+  induction ops with
+  | nil => intro s h; simpa [rxRun] using h
+  | cons op ops ih =>
+    intro s h
+    have hstep : Warm size (rxStep size s op).pool := by
+      cases op with
+      | rx o =>
+        simp only [rxStep]
+        unfold rx
+        cases hg : get s.pool with
+        | outOfBuffers => simpa using h
+        | ok b p1 =>
+          have h2 := warm_get_fill h hg
+          cases o with
+          | value m => simpa using warm_fill b m h2
+          | nothing =>
+            cases hr : recycle (fill p1 b size) b with
+            | none => simpa [hr] using h
+            | some q => simpa [hr] using warm_recycle h2 hr
+          | exn =>
+            cases hr : recycle (fill p1 b size) b with
+            | none => simpa [hr] using h
+            | some q => simpa [hr] using warm_recycle h2 hr
+      | drop b =>
+        simp only [rxStep]
+        split
+        · cases hr : recycle s.pool b with
+          | none => simpa using h
+          | some q => simpa using warm_recycle h hr
+        · exact h
+    have := ih _ hstep
+    simpa [rxRun, List.foldl_cons] using this
+
+/-- a reused receive buffer needs no growth: the buffer a receive obtains from a non-empty idle stack
+already has capacity `≥ rxBufSize` -/
+theorem rx_reuse_no_growth (n size : Nat) (hn : n < sizeMax) (ops : List RxOp) (b : BufId) (p1 : Pool) :
+    let s := rxRun size { pool := create n size, held := [] } ops
+    get s.pool = .ok b p1 → s.pool.idle ≠ [] → size ≤ s.pool.cap b ∧ p1.cap b = s.pool.cap b := by
+  intro s hg hne
+  have hw := rx_pool_stays_warm n size ops
+  unfold get at hg
+  split at hg
+  · rename_i h0; exact absurd h0 hne
+  · rename_i b0 rest hidle
+    cases hg
+    have hinv : PoolInv n size s.pool := (rx_inv n size hn ops).1
+    have hlt : b < s.pool.next := hinv.below b (by simp [hidle])
+    exact ⟨hw b hlt, rfl⟩
+
+example : (rxRun 8 { pool := create 0 8, held := [] } [.rx (.value 3), .drop 0, .rx .nothing]).pool.cap 0 = 8 := by
+  decide
+
 /-- the predicate `./check C10` evaluates on the implementation's observations (`Spec/C10.lean`:
 `specGetOk`, `specGetThrow`) accepts every trace of the model, for every `(N, reserve)` and every history -/
 theorem spec_holds_on_model (n r : Nat) (hn : n < sizeMax) (ops : List Op) (hlen : ops.length < sizeMax - 1) :
